@@ -10,7 +10,7 @@ ID = "C02"
 LEVEL = "exploration"
 BUDGET = {"quick": 50, "thorough": 900}
 QUICK_CASES = 2000  # generator items in the quick tier (fixed amount of work; BUDGET is then only a safety cap)
-FLOOR = {"quick": 30000, "thorough": 50000}
+FLOOR = {"quick": 30000, "thorough": 30000}  # conclusive cases below which a run is inconclusive (the thorough tier is time-budgeted: same floor)
 TIMEOUT = 120
 REQUIRED_OBS = ["programs_compared", "tracer_events", "exceptions_agreed", "enumerated_programs"]
 RULE = (
